@@ -3,7 +3,7 @@ package main
 func init() {
 	mut("C09", "revert-padding-credit", "h2/relay.go", "\tn := f.Header().Length\n", "\tn := uint32(len(f.Data()))\n", "C09.R1", "WriteWindowUpdate#1")
 	mut("C09", "stream-credit-dropped", "h2/relay.go", "\treturn r.dest.WriteWindowUpdate(f.StreamID, n)", "\treturn nil", "C09.R1", "connection and stream")
-	mut("C09", "emit-ignores-stream-window", "h2/relay.go", "if f.flowControlSize() > *connectionWindowSize || f.flowControlSize() > w.windowSize {", "if f.flowControlSize() > *connectionWindowSize {", "C09.R2", "stream window")
+	mut("C09", "emit-ignores-stream-window", "h2/relay.go", "if f.flowControlSize() > *connectionWindowSize || f.flowControlSize() > w.windowSize {", "if f.flowControlSize() > *connectionWindowSize {", "C09.R2", "guarded by both windows")
 	mut("C09", "conn-window-not-reduced", "h2/relay.go", "\t\t*connectionWindowSize -= f.flowControlSize()\n", "", "C09.R2", "connection window reduced")
 	mut("C09", "window-update-no-wake", "h2/relay.go", "\t\tr.connectionWindowSize += int(f.Increment)\n\t\tr.flowMu.Unlock()\n\t\tr.sendQueuedFramesUnderWindowSize()\n", "\t\tr.connectionWindowSize += int(f.Increment)\n\t\tr.flowMu.Unlock()\n", "C09.R4", "connection-window increase")
 	mut("C09", "initial-window-no-wake", "h2/relay.go", "\tr.flowMu.Unlock()\n\t// Since all the stream windows may be impacted, all the queues need to be checked for newly\n\t// eligible frames.\n\tr.sendQueuedFramesUnderWindowSize()\n", "\tr.flowMu.Unlock()\n", "C09.R4", "updateInitialWindowSize")
@@ -14,7 +14,7 @@ func init() {
 	mut("C09", "frame-size-setting-ignored", "h2/relay.go", "\t\t\t\tcase http2.SettingMaxFrameSize:\n\t\t\t\t\tr.peer.updateMaxFrameSize(s.Val)\n", "", "C09.R4", "applied to the peer")
 	twin("C09", "guard-inverted-form", "h2/relay.go", "\t\tif f.flowControlSize() > *connectionWindowSize || f.flowControlSize() > w.windowSize {\n\t\t\tbreak\n\t\t}\n", "\t\tif !(f.flowControlSize() <= *connectionWindowSize && w.windowSize >= f.flowControlSize()) {\n\t\t\tbreak\n\t\t}\n")
 	mut("C09", "rst-deletes-output-buffer", "h2/relay.go", "func (r *relay) rstStream(id uint32, errCode http2.ErrCode) {\n", "func (r *relay) rstStream(id uint32, errCode http2.ErrCode) {\n\tr.flowMu.Lock()\n\tdelete(r.outputBuffers, id)\n\tr.flowMu.Unlock()\n", "C09.R4", "outputBuffers")
-	mut("C09", "window-comparison-excludes-equality", "h2/relay.go", "f.flowControlSize() > *connectionWindowSize ||", "f.flowControlSize() >= *connectionWindowSize ||", "C09.R2", "exactly fills")
+	mut("C09", "window-comparison-excludes-equality", "h2/relay.go", "f.flowControlSize() > *connectionWindowSize ||", "f.flowControlSize() >= *connectionWindowSize ||", "C09.R2", "fits both windows is emitted")
 	mut("C09", "initial-window-delta-sign", "h2/relay.go", "delta := int(v) - int(r.initialWindowSize)", "delta := int(v) + int(r.initialWindowSize)", "C09.R2", "new minus old")
 	mut("C09", "continuation-rest-not-advanced", "h2/relay.go", "\t\tchunks = append(chunks, buf)\n\t\tremaining = remaining[nextChunkLength:]\n", "\t\tchunks = append(chunks, buf)\n\t\tremaining = remaining[len(buf)-1:]\n", "C09.R5", "advanced by the chunk")
 	mut("C09", "first-chunk-not-clamped", "h2/relay.go", "\tif firstChunkLength > firstChunkMax {\n\t\tfirstChunkLength = firstChunkMax\n\t}\n", "\tif firstChunkLength < firstChunkMax {\n\t\tfirstChunkLength = firstChunkMax\n\t}\n", "C09.R5", "at most its limit")
